@@ -51,6 +51,7 @@ type Join struct {
 	Acts    []JAct       `json:"acts"`
 	Cycles  int          `json:"cycles"` // additional create/close cycles over the long-lived base controllers
 	Bufsiz  int          `json:"bufsiz,omitempty"` // EventBufsiz of the run (0 = 100)
+	OwnCtx  bool         `json:"own_ctx,omitempty"` // the join is built with a context of its own that ends right after construction (a set-up helper with defer cancel()); the bases live on
 	CloseDst bool        `json:"close_dst"` // finally close the destination base while a join is alive: the join must go down with it (C11 for joins)
 	Sim     SimCfg       `json:"sim"`
 }
@@ -77,8 +78,9 @@ func podView(c pod.Controller) *resultView {
 		list: func() ([]metav1.Object, error) {
 			l, err := c.Cache().List()
 			var out []metav1.Object
-			for _, o := range l {
+			for i, o := range l {
 				out = append(out, o)
+				l[i] = nil // the typed list is the caller's, too
 			}
 			return out, err
 		},
@@ -104,8 +106,9 @@ func svcView(c service.Controller) *resultView {
 		list: func() ([]metav1.Object, error) {
 			l, err := c.Cache().List()
 			var out []metav1.Object
-			for _, o := range l {
+			for i, o := range l {
 				out = append(out, o)
+				l[i] = nil // the typed list is the caller's, too
 			}
 			return out, err
 		},
@@ -129,6 +132,7 @@ func svcView(c service.Controller) *resultView {
 type joinEnv struct {
 	sc            *Join
 	ctx           context.Context
+	jctx          context.Context // the context handed to the join constructors
 	log           logutil.Log
 	src, mid, dst *world.Server
 	bases         []baseCtrl
@@ -231,9 +235,9 @@ func (e *joinEnv) setup() {
 			var r pod.Controller
 			var err error
 			if sc.With {
-				r, err = join.ServicePodsWith(e.ctx, s, d, func(o ...*corev1.Service) filter.ComparableFilter { return fn(o...) })
+				r, err = join.ServicePodsWith(e.jctx, s, d, func(o ...*corev1.Service) filter.ComparableFilter { return fn(o...) })
 			} else {
-				r, err = join.ServicePods(e.ctx, s, d)
+				r, err = join.ServicePods(e.jctx, s, d)
 			}
 			if err != nil {
 				return nil, err
@@ -257,9 +261,9 @@ func (e *joinEnv) setup() {
 			var r pod.Controller
 			var err error
 			if sc.With {
-				r, err = join.RCPodsWith(e.ctx, s, d, func(o ...*corev1.ReplicationController) filter.ComparableFilter { return fn(o...) })
+				r, err = join.RCPodsWith(e.jctx, s, d, func(o ...*corev1.ReplicationController) filter.ComparableFilter { return fn(o...) })
 			} else {
-				r, err = join.RCPods(e.ctx, s, d)
+				r, err = join.RCPods(e.jctx, s, d)
 			}
 			if err != nil {
 				return nil, err
@@ -283,9 +287,9 @@ func (e *joinEnv) setup() {
 			var r pod.Controller
 			var err error
 			if sc.With {
-				r, err = join.RSPodsWith(e.ctx, s, d, func(o ...*appsv1.ReplicaSet) filter.ComparableFilter { return fn(o...) })
+				r, err = join.RSPodsWith(e.jctx, s, d, func(o ...*appsv1.ReplicaSet) filter.ComparableFilter { return fn(o...) })
 			} else {
-				r, err = join.RSPods(e.ctx, s, d)
+				r, err = join.RSPods(e.jctx, s, d)
 			}
 			if err != nil {
 				return nil, err
@@ -309,9 +313,9 @@ func (e *joinEnv) setup() {
 			var r pod.Controller
 			var err error
 			if sc.With {
-				r, err = join.DeploymentPodsWith(e.ctx, s, d, func(o ...*appsv1.Deployment) filter.ComparableFilter { return fn(o...) })
+				r, err = join.DeploymentPodsWith(e.jctx, s, d, func(o ...*appsv1.Deployment) filter.ComparableFilter { return fn(o...) })
 			} else {
-				r, err = join.DeploymentPods(e.ctx, s, d)
+				r, err = join.DeploymentPods(e.jctx, s, d)
 			}
 			if err != nil {
 				return nil, err
@@ -335,9 +339,9 @@ func (e *joinEnv) setup() {
 			var r pod.Controller
 			var err error
 			if sc.With {
-				r, err = join.DaemonSetPodsWith(e.ctx, s, d, func(o ...*appsv1.DaemonSet) filter.ComparableFilter { return fn(o...) })
+				r, err = join.DaemonSetPodsWith(e.jctx, s, d, func(o ...*appsv1.DaemonSet) filter.ComparableFilter { return fn(o...) })
 			} else {
-				r, err = join.DaemonSetPods(e.ctx, s, d)
+				r, err = join.DaemonSetPods(e.jctx, s, d)
 			}
 			if err != nil {
 				return nil, err
@@ -361,9 +365,9 @@ func (e *joinEnv) setup() {
 			var r pod.Controller
 			var err error
 			if sc.With {
-				r, err = join.StatefulSetPodsWith(e.ctx, s, d, func(o ...*appsv1.StatefulSet) filter.ComparableFilter { return fn(o...) })
+				r, err = join.StatefulSetPodsWith(e.jctx, s, d, func(o ...*appsv1.StatefulSet) filter.ComparableFilter { return fn(o...) })
 			} else {
-				r, err = join.StatefulSetPods(e.ctx, s, d)
+				r, err = join.StatefulSetPods(e.jctx, s, d)
 			}
 			if err != nil {
 				return nil, err
@@ -387,9 +391,9 @@ func (e *joinEnv) setup() {
 			var r pod.Controller
 			var err error
 			if sc.With {
-				r, err = join.JobPodsWith(e.ctx, s, d, func(o ...*batchv1.Job) filter.ComparableFilter { return fn(o...) })
+				r, err = join.JobPodsWith(e.jctx, s, d, func(o ...*batchv1.Job) filter.ComparableFilter { return fn(o...) })
 			} else {
-				r, err = join.JobPods(e.ctx, s, d)
+				r, err = join.JobPods(e.jctx, s, d)
 			}
 			if err != nil {
 				return nil, err
@@ -415,9 +419,9 @@ func (e *joinEnv) setup() {
 			var r service.Controller
 			var err error
 			if sc.With {
-				r, err = join.IngressServicesWith(e.ctx, s, d, func(o ...*netv1beta1.Ingress) filter.ComparableFilter { return fn(o...) })
+				r, err = join.IngressServicesWith(e.jctx, s, d, func(o ...*netv1beta1.Ingress) filter.ComparableFilter { return fn(o...) })
 			} else {
-				r, err = join.IngressServices(e.ctx, s, d)
+				r, err = join.IngressServices(e.jctx, s, d)
 			}
 			if err != nil {
 				return nil, err
@@ -440,7 +444,7 @@ func (e *joinEnv) setup() {
 		e.bases = append(e.bases, m)
 		d := podBase()
 		e.mk = func() (*resultView, error) {
-			r, err := join.IngressPods(e.ctx, s, m, d)
+			r, err := join.IngressPods(e.jctx, s, m, d)
 			if err != nil {
 				return nil, err
 			}
@@ -484,7 +488,15 @@ func (e *joinEnv) oneJoin(acts []JAct, cycle int) {
 	}
 	detsim.Settle()
 	baseline := liveLibNames()
+	e.jctx = e.ctx
+	endOwn := func() {}
+	if e.sc.OwnCtx {
+		// a context of the join's own, ended as soon as the constructor returned:
+		// a join lives until its result is closed, not until some set-up context ends
+		e.jctx, endOwn = context.WithCancel(e.ctx)
+	}
 	rv, err := e.mk()
+	endOwn()
 	if err != nil {
 		detsim.Fail("api-error", "creating the join over running controllers: %v", err)
 	}
@@ -539,6 +551,8 @@ func (e *joinEnv) oneJoin(acts []JAct, cycle int) {
 			detsim.Fail("api-error", "join Cache().List(): %v", err)
 		}
 		got := world.IDs(objs)
+		seedSpecs := specsOfObjs(objs)
+		world.Scribble(objs)
 		want := world.SpecIDs(e.expected())
 		if !world.SameIDs(got, want) {
 			detsim.Fail("join-selection-wrong", "join(%s) cache differs from the destination objects selected by the current source objects\n  join    : %v\n  expected: %v\n  source  : %v\n  mid     : %v\n  dest    : %v", e.sc.Kind, got, want,
@@ -546,7 +560,7 @@ func (e *joinEnv) oneJoin(acts []JAct, cycle int) {
 		}
 		if !seeded {
 			// seeded at a quiescent point: nothing is in flight, strict from here on
-			mirror = world.NewMirror("join-subscriber", specsOfObjs(objs))
+			mirror = world.NewMirror("join-subscriber", seedSpecs)
 			mirror.Strict = true
 			seeded = true
 			pending = nil
@@ -635,6 +649,7 @@ func runJoin(sci interface{}) {
 	if sc.CloseDst {
 		// shutdown cascades down into a join: closing the destination base closes
 		// the join result (its descendant) and everything the join created
+		e.jctx = e.ctx
 		rv, err := e.mk()
 		if err != nil {
 			detsim.Fail("api-error", "creating the join over running controllers: %v", err)
@@ -824,6 +839,7 @@ func genJoin(g GenCtx, kind string, overrun bool) *Join {
 		genJoinOverrun(rng, sc)
 		return sc
 	}
+	sc.OwnCtx = rng.Intn(4) == 0
 	sc.CloseDst = rng.Intn(3) == 0
 	if rng.Intn(3) == 0 {
 		sc.Cycles = 1 + rng.Intn(20)
